@@ -500,6 +500,13 @@ impl<'a> Rw<'a> {
             return self.try_filter_count(mc);
         }
         if mc.method == "unzip" && mc.args.is_empty() {
+            if let syn::Expr::MethodCall(m) = &*mc.receiver {
+                if m.method == "map" && m.args.len() == 1 {
+                    if let syn::Expr::Paren(_) = &*m.receiver {
+                        return self.try_range_map_unzip(mc, m);
+                    }
+                }
+            }
             return self.try_enum_filter_enum_map_unzip(mc);
         }
         if mc.method == "collect" && mc.args.is_empty() {
@@ -775,6 +782,39 @@ impl<'a> Rw<'a> {
         self.visit_expr(&map.args[0]);
         self.visit_expr(&mc.args[0]);
         self.visit_expr(&mc.args[1]);
+        true
+    }
+
+    /// R13: `(A..B).map(F).unzip()` -> two vectors filled by `for i in A..B { let t = F(i); a.push(t.0); b.push(t.1) }`
+    fn try_range_map_unzip(&mut self, mc: &syn::ExprMethodCall, map: &syn::ExprMethodCall) -> bool {
+        let range = match &*map.receiver {
+            syn::Expr::Paren(p) => match &*p.expr { syn::Expr::Range(r) => r, _ => return false },
+            _ => return false,
+        };
+        let (lo, hi) = match (&range.start, &range.end, &range.limits) {
+            (Some(a), Some(b), syn::RangeLimits::HalfOpen(_)) => (a, b),
+            _ => return false,
+        };
+        let k = self.iter_chain_idx;
+        let ls = match self.spec.iter_loops.get(&k.to_string()).cloned() { Some(l) => l, None => return false };
+        self.iter_chain_idx += 1;
+        let (ms, _) = br(mc.span());
+        let (los, loe) = br(lo.span());
+        let (his, hie) = br(hi.span());
+        let (fs, fe) = br(map.args[0].span());
+        let (_, end) = br(mc.span());
+        let mut inv = String::new();
+        if !ls.invariant.is_empty() { inv.push_str(&format!(" invariant {},", ls.invariant.join(", "))); }
+        let dec = if ls.decreases.is_empty() { "__hi - __i".to_string() } else { ls.decreases.clone() };
+        self.replace_range(ms, los, "{ let __lo: usize = ".to_string(), "R13-range-map-unzip");
+        self.replace_range(loe, his, "; let __hi: usize = ".to_string(), "R13-range-map-unzip");
+        self.replace_range(hie, fs, "; let __f = ".to_string(), "R13-range-map-unzip");
+        self.replace_range(fe, end, format!(
+            "; let mut __a = Vec::new(); let mut __b = Vec::new(); let mut __i: usize = __lo; while __i < __hi{} decreases {}, {{ {} let __t = __f(__i); __a.push(__t.0); __b.push(__t.1); __i += 1; }} {} (__a, __b) }}",
+            inv, dec, ls.body_prologue, ls.after), "R13-range-map-unzip");
+        self.visit_expr(lo);
+        self.visit_expr(hi);
+        self.visit_expr(&map.args[0]);
         true
     }
 
